@@ -1,0 +1,127 @@
+//go:build verif
+
+// Contracts for package kv (comment-only; compiled only with the build tag "verif",
+// read by /verif/engine). Property C13.
+
+package kv
+
+//@ import json "encoding/json"
+//@ import kv "github.com/jamf/regatta/storage/kv"
+//@ import dbsm "github.com/lni/dragonboat/v4/statemachine"
+
+// ---- encoding/json on the three shapes this package marshals (assumed: the json package is not
+// under contract). A proposal payload is identified by its slice header (log entry payloads are
+// immutable); snapshot images by their content.
+//@ uninterp func updOf(cmd []byte) Update
+//@ uninterp func pairOf(data []byte) Pair
+//@ uninterp func imgHas(img Bytes, k string) bool
+//@ uninterp func imgGet(img Bytes, k string) Pair
+
+//@ func json.Unmarshal<*kv.Update>
+//@   assumed
+//@   params data, v
+//@   results err
+//@   ensures err == nil ==> asType(v, *kv.Update).Op == updOf(data).Op && asType(v, *kv.Update).KVPair == updOf(data).KVPair
+//@   modifies fields(asType(v, *kv.Update))
+
+//@ func json.Marshal<kv.Pair>
+//@   assumed
+//@   params v
+//@   results data, err
+//@   ensures err == nil && fresh(data) && pairOf(data) == asType(v, kv.Pair)
+//@   modifies nothing
+
+// Unmarshal into a map keeps the entries a non-nil map already has and adds the image's.
+//@ func json.Unmarshal<*map[string]kv.Pair>
+//@   assumed
+//@   params data, v
+//@   results err
+//@   requires *asType(v, *gomap[string]kv.Pair) != nil
+//@   ensures *asType(v, *gomap[string]kv.Pair) == old(*asType(v, *gomap[string]kv.Pair))
+//@   ensures err == nil ==> forall k string :: has(*asType(v, *gomap[string]kv.Pair), k) == (old(has(*asType(v, *gomap[string]kv.Pair), k)) || imgHas(bytesOf(data), k))
+//@   ensures err == nil ==> forall k string :: (*asType(v, *gomap[string]kv.Pair))[k] == (imgHas(bytesOf(data), k) ? imgGet(bytesOf(data), k) : old((*asType(v, *gomap[string]kv.Pair))[k]))
+//@   modifies elems(*asType(v, *gomap[string]kv.Pair))
+
+//@ func json.Marshal<map[string]kv.Pair>
+//@   assumed
+//@   params v
+//@   results data, err
+//@   ensures err == nil ==> fresh(data) && forall k string :: imgHas(bytesOf(data), k) == has(asType(v, gomap[string]kv.Pair), k) && (has(asType(v, gomap[string]kv.Pair), k) ==> imgGet(bytesOf(data), k) == asType(v, gomap[string]kv.Pair)[k])
+//@   modifies nothing
+
+// ---- the in-memory register map: abstract view is the Go map s.m itself
+//@ func (*MapStore).Get
+//@   params s, key
+//@   results p, err
+//@   requires s != nil
+//@   ensures [C13.get] has(s.m, key) ==> err == nil && p == s.m[key]
+//@   ensures [C13.get] !has(s.m, key) ==> err != nil && p == Pair{}
+//@   modifies nothing
+
+//@ func (*MapStore).Exists
+//@   params s, key
+//@   results ok, err
+//@   requires s != nil
+//@   ensures [C13.exists] ok == has(s.m, key) && err == nil
+//@   modifies nothing
+
+//@ func (*MapStore).Set
+//@   params s, key, value, ver
+//@   results p, err
+//@   requires s != nil && s.m != nil
+//@   ensures s.m == old(s.m)
+//@   ensures [C13.set] err == nil && p == Pair{Key: key, Value: value, Ver: ver} && has(s.m, key) && s.m[key] == p
+//@   ensures [C13.set.frame] forall k string :: k != key ==> has(s.m, k) == old(has(s.m, k)) && s.m[k] == old(s.m[k])
+//@   modifies elems(s.m)
+
+//@ func (*MapStore).Delete
+//@   params s, key, ver
+//@   results err
+//@   requires s != nil
+//@   ensures [C13.delete] err == nil && !has(s.m, key)
+//@   ensures [C13.delete.frame] forall k string :: k != key ==> has(s.m, k) == old(has(s.m, k)) && s.m[k] == old(s.m[k])
+//@   modifies elems(s.m)
+
+// a restored store holds exactly the image, whatever it held before
+//@ func (*MapStore).UnmarshalJSON
+//@   params s, bytes
+//@   results err
+//@   requires s != nil
+//@   ensures [C13.restore] err == nil ==> s.m != nil && forall k string :: has(s.m, k) == imgHas(bytesOf(bytes), k) && (has(s.m, k) ==> s.m[k] == imgGet(bytesOf(bytes), k))
+//@   modifies s.m
+
+//@ func (*MapStore).MarshalJSON
+//@   params s
+//@   results data, err
+//@   requires s != nil
+//@   ensures [C13.image] err == nil ==> forall k string :: imgHas(bytesOf(data), k) == has(s.m, k) && (has(s.m, k) ==> imgGet(bytesOf(data), k) == s.m[k])
+//@   modifies nothing
+
+// ---- the replicated state machine
+// the update rule of the property, per entry e applied to the map:
+//   key present with another version  -> rejected (code 2, current pair reported, map unchanged)
+//   otherwise "set"                   -> key := (key, value, e.Index)
+//   otherwise "delete"                -> key removed
+//@ pure func rejected(s *MapStore, cmd []byte) bool = has(s.m, updOf(cmd).KVPair.Key) && s.m[updOf(cmd).KVPair.Key].Ver != updOf(cmd).KVPair.Ver
+
+//@ func (*LFSM).Update
+//@   params fsm, entries
+//@   results out, err
+//@   requires fsm != nil && fsm.store != nil && fsm.store.m != nil
+//@   requires [idx] forall i Int, j Int :: 0 <= i && i < j && j < len(entries) ==> entries[i].Index < entries[j].Index
+//@   requires [idx] len(entries) > 0 ==> forall k string :: has(fsm.store.m, k) ==> fsm.store.m[k].Ver < entries[0].Index
+//@   ensures  [C13.version.bound] err == nil && len(entries) > 0 ==> forall k string :: has(fsm.store.m, k) ==> fsm.store.m[k].Ver <= entries[len(entries)-1].Index
+//@   ensures  err == nil ==> sameSlice(out, entries)
+//@   modifies elems(fsm.store.m), elems(entries)
+//@   dead return 1
+//@   dead return 2
+//@   loop 0 invariant fsm.store == old(fsm.store) && fsm.store.m == old(fsm.store.m) && -1 <= rangeindex && (rangeindex < len(entries) || len(entries) == 0)
+//@   loop 0 invariant forall i Int :: 0 <= i && i < len(entries) ==> entries[i].Index == old(entries[i].Index) && sameSlice(entries[i].Cmd, old(entries[i].Cmd))
+//@   loop 0 invariant rangeindex + 1 < len(entries) ==> forall k string :: has(fsm.store.m, k) ==> fsm.store.m[k].Ver < entries[rangeindex+1].Index
+//@   loop 0 invariant rangeindex >= 0 && rangeindex + 1 >= len(entries) ==> forall k string :: has(fsm.store.m, k) ==> fsm.store.m[k].Ver <= entries[rangeindex].Index
+//@   loop 0 step [C13.cas.reject] prev(rejected(fsm.store, entries[rangeindex+1].Cmd)) ==> entries[rangeindex+1].Result.Value == 2 && pairOf(entries[rangeindex+1].Result.Data) == prev(fsm.store.m[updOf(entries[rangeindex+1].Cmd).KVPair.Key]) && forall k string :: has(fsm.store.m, k) == prev(has(fsm.store.m, k)) && fsm.store.m[k] == prev(fsm.store.m[k])
+//@   loop 0 step [C13.cas.set] !prev(rejected(fsm.store, entries[rangeindex+1].Cmd)) && updOf(entries[rangeindex+1].Cmd).Op == "set" ==> entries[rangeindex+1].Result.Value == 1 && has(fsm.store.m, updOf(entries[rangeindex+1].Cmd).KVPair.Key) && fsm.store.m[updOf(entries[rangeindex+1].Cmd).KVPair.Key] == Pair{Key: updOf(entries[rangeindex+1].Cmd).KVPair.Key, Value: updOf(entries[rangeindex+1].Cmd).KVPair.Value, Ver: entries[rangeindex+1].Index} && pairOf(entries[rangeindex+1].Result.Data) == fsm.store.m[updOf(entries[rangeindex+1].Cmd).KVPair.Key]
+//@   loop 0 step [C13.cas.delete] !prev(rejected(fsm.store, entries[rangeindex+1].Cmd)) && updOf(entries[rangeindex+1].Cmd).Op == "delete" ==> entries[rangeindex+1].Result.Value == 1 && !has(fsm.store.m, updOf(entries[rangeindex+1].Cmd).KVPair.Key)
+//@   loop 0 step [C13.cas.frame] forall k string :: k != updOf(entries[rangeindex+1].Cmd).KVPair.Key ==> has(fsm.store.m, k) == prev(has(fsm.store.m, k)) && fsm.store.m[k] == prev(fsm.store.m[k])
+//@   loop 0 step [C13.cas.noop] !prev(rejected(fsm.store, entries[rangeindex+1].Cmd)) && updOf(entries[rangeindex+1].Cmd).Op != "set" && updOf(entries[rangeindex+1].Cmd).Op != "delete" ==> forall k string :: has(fsm.store.m, k) == prev(has(fsm.store.m, k)) && fsm.store.m[k] == prev(fsm.store.m[k])
+//@   loop 0 step [C13.version.fresh] !prev(rejected(fsm.store, entries[rangeindex+1].Cmd)) && updOf(entries[rangeindex+1].Cmd).Op == "set" ==> forall k string :: prev(has(fsm.store.m, k)) ==> fsm.store.m[updOf(entries[rangeindex+1].Cmd).KVPair.Key].Ver > prev(fsm.store.m[k].Ver)
